@@ -66,12 +66,12 @@ def gen_cases(tier, seed, scale=1):
     # sub-tokens as the poller holds them: real composite sources (g = Generic leaf, r = a leaf that asks the factory
     # itself) in a real loop, through update / Reregister post action / disable / enable
     for _ in range(40 if tier == "quick" else 1500):
-        leaves = "".join(rnd.choice("ggrt") for _ in range(rnd.randrange(1, 6)))
+        leaves = "".join(rnd.choice("ggrte") for _ in range(rnd.randrange(1, 6)))
         ops, on = [], True
         live = len(leaves)
         for _ in range(rnd.randrange(1, 6)):
             op = rnd.choice(["update", "rereg", "disable", "retire", "retire", "unwrap"]) if on else "enable"
-            if op == "unwrap" and (live <= 1 or "g" not in leaves):
+            if op == "unwrap" and (live <= 1 or ("g" not in leaves and "e" not in leaves)):
                 op = "update"
             if op == "unwrap":
                 live -= 1
@@ -80,14 +80,14 @@ def gen_cases(tier, seed, scale=1):
                     op = "update"
                 else:
                     live -= 1
-            if op == "rereg" and not any(c != "t" for c in leaves):
+            if op == "rereg" and not any(c not in "te" for c in leaves):
                 op = "update"
             on = op != "disable"
             ops.append(op)
             if op == "retire":
                 ops.append("update")
         lines.append("composite %s %s" % (leaves, ",".join(ops)))
-    for leaves in ("gr", "rg", "grg", "ggr", "rr", "tg", "gt", "tgr", "gtg", "ttg"):
+    for leaves in ("gr", "rg", "grg", "ggr", "rr", "tg", "gt", "tgr", "gtg", "ttg", "ge", "eg", "gee", "reg"):
         lines.append("composite %s update,rereg,disable,enable,update" % leaves)
         lines.append("composite %s update,retire,update,disable,enable" % leaves)
         lines.append("composite %s unwrap,update,unwrap,update" % leaves)
@@ -164,7 +164,7 @@ class Monitor:
                     return "a leaf of the composite source sits in the poller under a key of another source"
                 # every fd-backed leaf that is in the poller at the end answers an event on its fd
                 last = stages[-1].split(",")
-                want_poked = [str(i) for i, s in enumerate(last) if s not in ("-", "t")]
+                want_poked = [str(i) for i, s in enumerate(last) if s not in ("-", "t") and w[1][i] != "e"]
                 got_poked = [x for x in kv.get("poked", "-").split(",") if x != "-"]
                 if got_poked != want_poked:
                     return ("composite %s after %s: the leaves %s are registered with the poller but an event on their fds reached the leaves %s"
